@@ -57,27 +57,3 @@ Definition famI2 : list cfg :=
   flat_map (fun o1 => map (fun o2 => (wit_nodes2, [follow o1; follow o2])) ins_ops) [FPia 1 101 1; FPut 4 104 1].
 Definition famI : list cfg := famI1 ++ famI2.
 
-(* ---- lifting a computed family result to the statement about every schedule ---- *)
-Lemma family_sp_lift pol fam :
-  forallb (cfg_ok_sp pol) fam = true ->
-  forall c, In c fam -> forall g,
-    let s := frun_grants pol wit_sof N.eqb (cfg_init c) g in
-    fdone s = true -> lin (amap_of (fst c)) (hist_of s).
-Proof.
-  intros H c Hc g. cbv zeta. intros Hd. rewrite forallb_forall in H. specialize (H c Hc). unfold cfg_ok_sp in H.
-  apply linb_iff. exact (explore_sp_sound pol wit_sof N.eqb (chk_lin (fst c)) g 200 (cfg_init c) H Hd).
-Qed.
-Lemma family_steps_lift pol fam :
-  forallb (cfg_ok_steps pol) fam = true ->
-  forall c, In c fam -> forall sched,
-    let s := frun pol wit_sof N.eqb (cfg_init c) sched in
-    fdone s = true -> lin (amap_of (fst c)) (hist_of s).
-Proof.
-  intros H c Hc sched. cbv zeta. intros Hd. rewrite forallb_forall in H. specialize (H c Hc). unfold cfg_ok_steps in H.
-  apply linb_iff. exact (explore_sound pol wit_sof N.eqb (chk_lin (fst c)) sched 400 (cfg_init c) H Hd).
-Qed.
-
-Lemma famWA_ok : forallb (cfg_ok_sp pol_patch) (famW ++ famA) = true.
-Proof. vm_compute. reflexivity. Qed.
-Lemma fam_steps_ok : forallb (cfg_ok_steps pol_patch) patch_family_steps = true.
-Proof. vm_compute. reflexivity. Qed.
